@@ -14,7 +14,7 @@ HOSTILE_TEXT = [
     'café naïve', '\U0001F600 grin', 'é combining', '中文', ']]> cdata end',
     '&amp; literally', '<notatag>', ' nbsp ls', '--', '\\n',
 ]
-CR_TEXT = ['a\rb', 'line\r\nend', '\r']
+CR_TEXT = ['a\ue00db', 'line\ue00d\nend', '\ue00d']
 NOTE_TEXT = ['(BONG)', '<VT IN>', '(', ')', '()', '<>', '( x )', '  (padded note)  ', '(half', 'half)',
              '(mix>', '<mix)', '', ' ', '\n  \n', 'plain (with) brackets', '<a> and <b>', '(a) then (b)']
 HOSTILE_IDS = ['S1', 'S10', 'S1 ', ' S1', 's1', 'S01', 'A&B', 'x<y', 'q"q', "o'o", 'éè', '\U0001F600',
@@ -544,3 +544,99 @@ def item_grid_messages(story_id, I, other_story=None, kmax=3, full=True):
         yield 'roItemMoveMultiple', dict(story_ref=sref, ids=some, target=BLANK)
         yield 'EAItemMove', dict(story_ref=sref, ids=some, target=BLANK)
         yield 'EAItemSwap', dict(story_ref=sref, ids=(some * 2)[:2] if len(I) < 2 else I[:2])
+
+
+# --------------------------------------------------------------------------
+# full product of reference shapes per kind (C03 / C12 / C05 workloads)
+
+SHAPES = ('existing', 'unknown', 'blank', 'absent')
+
+
+def _concrete(shape, pool, used, n=[0]):
+    if shape == 'existing':
+        cand = [x for x in pool if x not in used] or list(pool)
+        if not cand:
+            return 'UNK-none'
+        c = cand[0]
+        used.append(c)
+        return c
+    if shape == 'unknown':
+        n[0] += 1
+        return 'UNK-%d' % n[0]
+    if shape == 'blank':
+        return BLANK
+    return ABSENT
+
+
+def shape_product(rng, state, ids, pool, rich=True, kinds=None):
+    """Yield (kind, shape_vector, msg_kwargs) for every kind x every
+    combination of reference shapes of its reference slots, aimed at `state`."""
+    S = [s for s in state.story_ids if s is not None]
+    rng.shuffle(S)
+    kinds = kinds or B.ALL_KINDS
+
+    def stories(n=1):
+        return [new_story_for(rng, ids.new(), pool, rich=rich) for _ in range(n)]
+
+    def items(n=1):
+        ic = Ids('p%d-' % rng.randint(0, 9999))
+        return [rand_item(rng, ic.new(), pool, rich) for _ in range(n)]
+
+    for kind in kinds:
+        if kind in ('roStoryAppend', 'roReplace', 'roMetadataReplace', 'roReadyToAir', 'roDelete'):
+            continue
+        if kind in B.STORY_KINDS:
+            if kind in ('roStoryInsert', 'roStoryReplace', 'EAStoryInsert', 'EAStoryReplace'):
+                for t in SHAPES:
+                    yield kind, (t,), dict(target=_concrete(t, S, []), carried=stories(rng.choice([1, 2])))
+                if kind.startswith('EA'):
+                    yield kind, ('noel',), dict(target=ABSENT, target_el=False, carried=stories(1))
+            elif kind == 'roStorySend':
+                for t in SHAPES:
+                    yield kind, (t,), dict(story_ref=_concrete(t, S, []),
+                                           body=[E('p', 'x'), rand_item(rng, 'ss-i', pool, rich, tag='storyItem')],
+                                           fields=[E('storySlug', 'sent'), 'BODY'])
+            elif kind == 'roStoryMove':
+                for a in SHAPES:
+                    for t in SHAPES:
+                        used = []
+                        yield kind, (a, t), dict(ids=[_concrete(a, S, used)], target=_concrete(t, S, used))
+            elif kind in ('roStoryDelete', 'EAStoryDelete', 'EAStorySwap'):
+                for a in SHAPES:
+                    for b in SHAPES:
+                        used = []
+                        lst = [r for r in (_concrete(a, S, used), _concrete(b, S, used)) if r != ABSENT]
+                        yield kind, (a, b), dict(ids=lst)
+            elif kind == 'EAStoryMove':
+                for a in SHAPES:
+                    for b in SHAPES:
+                        for t in SHAPES:
+                            used = []
+                            lst = [r for r in (_concrete(a, S, used), _concrete(b, S, used)) if r != ABSENT]
+                            yield kind, (a, b, t), dict(ids=lst, target=_concrete(t, S, used))
+                yield kind, ('existing', 'noel'), dict(ids=S[:1] or ['q'], target=ABSENT, target_el=False)
+        else:
+            for sshape in SHAPES:
+                sref = _concrete(sshape, S, [])
+                st = state.story(sref) if isinstance(sref, str) else None
+                if st is None and S:
+                    st = state.story(S[-1])
+                I = [i for i in (item_ids(st) if st is not None else []) if i is not None]
+                if kind in ('roItemInsert', 'roItemReplace', 'EAItemInsert', 'EAItemReplace'):
+                    for t in SHAPES:
+                        yield kind, (sshape, t), dict(story_ref=sref, target=_concrete(t, I, []),
+                                                      carried=items(rng.choice([1, 2])))
+                elif kind in ('roItemDelete', 'EAItemDelete', 'EAItemSwap'):
+                    for a in SHAPES:
+                        for b in SHAPES:
+                            used = []
+                            lst = [r for r in (_concrete(a, I, used), _concrete(b, I, used)) if r != ABSENT]
+                            yield kind, (sshape, a, b), dict(story_ref=sref, ids=lst)
+                elif kind in ('roItemMoveMultiple', 'EAItemMove'):
+                    for a in SHAPES:
+                        for b in SHAPES:
+                            for t in SHAPES:
+                                used = []
+                                lst = [r for r in (_concrete(a, I, used), _concrete(b, I, used)) if r != ABSENT]
+                                yield kind, (sshape, a, b, t), dict(story_ref=sref, ids=lst,
+                                                                    target=_concrete(t, I, used))
